@@ -94,7 +94,7 @@ impl Parse for ast::ModModule {
         lxr: impl IntoIterator<Item = LexResult>,
         source_path: &str,
     ) -> Result<Self, ParseError> {
-        match parse_filtered_tokens(lxr, Mode::Module, source_path)? {
+        match parse_tokens(lxr, Mode::Module, source_path)? {
             ast::Mod::Module(m) => Ok(m),
             _ => unreachable!("Mode::Module doesn't return other variant"),
         }
@@ -112,7 +112,7 @@ impl Parse for ast::ModExpression {
         lxr: impl IntoIterator<Item = LexResult>,
         source_path: &str,
     ) -> Result<Self, ParseError> {
-        match parse_filtered_tokens(lxr, Mode::Expression, source_path)? {
+        match parse_tokens(lxr, Mode::Expression, source_path)? {
             ast::Mod::Expression(m) => Ok(m),
             _ => unreachable!("Mode::Module doesn't return other variant"),
         }
@@ -130,7 +130,7 @@ impl Parse for ast::ModInteractive {
         lxr: impl IntoIterator<Item = LexResult>,
         source_path: &str,
     ) -> Result<Self, ParseError> {
-        match parse_filtered_tokens(lxr, Mode::Interactive, source_path)? {
+        match parse_tokens(lxr, Mode::Interactive, source_path)? {
             ast::Mod::Interactive(m) => Ok(m),
             _ => unreachable!("Mode::Module doesn't return other variant"),
         }
